@@ -342,7 +342,9 @@ def gen_ext(rng, dbc_single=False):
         p = s.pop("parent_obj", None)
         if p is not None:
             s["parent"] = p["i"]
-    return dict(size=L, complex=True, sigs=sigs, depth=len(levels))
+    # a frame is extended only when some SG_MUL_VAL_ line or an m<k>M token exists; otherwise DBC describes a simple frame
+    is_ext = any(s["role"] == "mux" or (s["parent"] is not None and s["ranges"]) for s in sigs)
+    return dict(size=L, complex=is_ext, sigs=sigs, depth=len(levels))
 
 
 def chain_payload(rng, desc, target, value):
@@ -440,7 +442,7 @@ def run(chk):
         return vals
 
     # ================= simple multiplexing =================
-    nsimple = 140 if not thorough else 1500
+    nsimple = 300 if not thorough else 2500
     for _ in range(nsimple):
         desc = gen_simple(rng)
         fr = build_api(C, desc, dbc_style=rng.random() < 0.5)
@@ -462,6 +464,12 @@ def run(chk):
                 write_raw(buf, root["le"], root["start"], root["size"], sv)
                 chk.count("simple: selector %s" % ("used" if sv in used else "unused"))
                 check_decode(desc, fr, bytes(buf), "api", ngroups >= 2 or sv not in used)
+        for sv in used:                                    # more payloads on the selector values that groups use
+            for _ in range(4):
+                buf = bytearray(rng.randrange(256) for _ in range(desc["size"]))
+                write_raw(buf, root["le"], root["start"], root["size"], sv)
+                chk.count("simple: selector used")
+                check_decode(desc, fr, bytes(buf), "api", True)
         # ---- encode -> decode round trip per group (+ an unused value, + no selector) ----
         unused = [v for v in range(lo, hi + 1) if v not in used]
         sels = list(used) + ([rng.choice(unused)] if unused else []) + [None]
@@ -517,7 +525,7 @@ def run(chk):
             add(301, [[desc["size"], 0], list(p)] + sig_groups(fr), out, dict(frame=desc_brief(desc), payload=p.hex()), "decode-length")
 
     # ================= extended multiplexing =================
-    next_ = 120 if not thorough else 1200
+    next_ = 300 if not thorough else 2500
     built = 0
     while built < next_:
         desc = gen_ext(rng, dbc_single=True)
@@ -533,6 +541,8 @@ def run(chk):
             fr_dbc = None
         chk.count("extended: depth %d" % desc["depth"])
         chk.count("extended: signals %d" % min(len(desc["sigs"]), 12))
+        chk.count("extended: leaves without SG_MUL_VAL_ (single value)", sum(1 for s in desc["sigs"] if s["role"] == "leaf" and not s["ranges"]))
+        chk.count("extended: frames that are in fact simple (no SG_MUL_VAL_, no nested multiplexer)", int(not desc["complex"]))
         if built == 1:
             chk.sample(dict(kind="extended", frame=desc_brief(desc), dbc=text))
         if fr_dbc is not None and roles_of(fr_api) != roles_of(fr_dbc):
@@ -545,7 +555,7 @@ def run(chk):
                 want = (s["role"] in ("root", "mux"), [list(r) for r in s["ranges"]] if s["parent"] is not None else [], want_parent)
                 got = (bool(o.is_multiplexer), [list(g) for g in o.mux_val_grp], o.muxer_for_signal)
                 single_ok = s["ranges"] or s["single"] is None or o.mux_val == s["single"]
-                if got != want or not single_ok or not fr.is_complex_multiplexed:
+                if got != want or not single_ok or bool(fr.is_complex_multiplexed) != desc["complex"]:
                     chk.violation("roles-%s" % tag, "multiplex roles after set-up are not what SG_MUL_VAL_ describes", dict(frame=desc_brief(desc), dbc=text),
                                   dict(signal=o.name, is_multiplexer=want[0], ranges=want[1], parent=want[2], single=s["single"]),
                                   dict(is_multiplexer=got[0], ranges=got[1], parent=got[2], mux_val=o.mux_val))
@@ -579,7 +589,7 @@ def run(chk):
         for tag, fr in frames[:1]:
             data = {nm(desc["sigs"][0]["i"]): 0}
             out, _ = impl_encode(C, fr, data)
-            add(302, [[desc["size"], 1], [desc["sigs"][0]["i"], 1, 0]] + sig_groups(fr), out, dict(frame=desc_brief(desc), data=data), "encode-complex")
+            add(302, [[desc["size"], int(fr.is_complex_multiplexed)], [desc["sigs"][0]["i"], 1, 0]] + sig_groups(fr), out, dict(frame=desc_brief(desc), data=data), "encode-complex")
 
     # ================= range test =================
     nrange = 400 if not thorough else 4000
